@@ -18,6 +18,8 @@ import (
 	"slices"
 	"sync"
 	"time"
+
+	"github.com/pion/transport/v4/deadline"
 )
 
 const (
@@ -46,6 +48,9 @@ type vsimTask struct {
 	client    bool
 	owner     string // association name or "" (census)
 	nlocks    int
+	isCB      bool // timer callback
+	holdDrawn bool
+	hold      int // scheduling steps during which the driver passes this task over (timer callbacks)
 	steps     int
 	wokeStep  int // step number at which the task last resumed from a blocking operation / started
 }
@@ -78,6 +83,8 @@ type vsimSim struct {
 	selTape  *vsimTape
 	noPerm   bool   // select / map orders are the identity (twin runs must not depend on how many draws happened)
 	yieldPPM uint32 // probability (per million) of a voluntary yield at a lock acquisition
+	nDeadlines int
+	holdPPM  uint32 // probability (per million) that a starting timer callback is held back for a few steps
 
 	lastLib    string
 	cbLog      []vsimCBRec // every timer callback with its (virtual) firing time
@@ -582,6 +589,20 @@ func vsimGo1[A any](site string, f func(A), a A) {
 	vsimGo(site, func() { f(a) })
 }
 
+func init() {
+	// the write-deadline timer of pion/transport (patched through the overlay, see bin/build.sh)
+	deadline.SimTimerHook = func(recv any) func() { return vsimStartCB(recv) }
+	// deadlines are created by tasks that hold the token (stream creation): the creation order is deterministic
+	deadline.SimNewHook = func(recv any) {
+		if s := vsim; s != nil {
+			s.lockMu()
+			s.nDeadlines++
+			s.names[recv] = fmt.Sprintf("deadline%03d", s.nDeadlines)
+			s.unlockMu()
+		}
+	}
+}
+
 // vsimStartCB is the first (deferred-call) statement of timer callbacks:
 // `defer vsimStartCB(recv)()`. The callback parks before doing anything.
 func vsimStartCB(recv any) func() {
@@ -597,6 +618,9 @@ func vsimStartCB(recv any) func() {
 	s.unlockMu()
 	t := s.newTask(fmt.Sprintf("%s#%d", base, n))
 	t.owner = vsimOwnerOf(recv)
+	// (whether this callback is held back for some steps is drawn by the driver, in task-name order: callbacks that
+	// start at the same instant reach this point in an order the simulator does not control)
+	t.isCB = true
 	t.park(s, vsimParkStart, base)
 	return func() {
 		if r := recover(); r != nil {
